@@ -59,6 +59,7 @@ def matrix(placement):
         return
     base = "Int"
     if placement == "list-item":
+        # an ITEM of a list never has a location default, whether or not the argument has one
         for vi, vw in enumerate(W):
             for pi, pw in enumerate(W):
                 pt = S.parse_type(S.w_type(pw, base))
@@ -67,21 +68,46 @@ def matrix(placement):
                     continue
                 item = inner[1]
                 for vd in (False, True):
-                    vt = S.parse_type(S.w_type(vw, base))
-                    ok = is_variable_usage_allowed(vt, vd, item, False)  # list positions have no default
-                    c = _case([O.F("scalar_a%d" % pi, args={"x": "[$v]"})], S.w_type(vw, base), S.w_literal(vw, base) if vd else None)
-                    yield "var-matrix:list-item:scalar:var=%s:pos=%s:vardefault=%d" % (vw, pw, vd), ok, c
+                    for ad in (False, True):
+                        vt = S.parse_type(S.w_type(vw, base))
+                        ok = is_variable_usage_allowed(vt, vd, item, False)
+                        fname = ("scalar_d%d" if ad else "scalar_a%d") % pi
+                        c = _case([O.F(fname, args={"x": "[$v]"})], S.w_type(vw, base), S.w_literal(vw, base) if vd else None)
+                        yield "var-matrix:list-item:scalar:var=%s:pos=%s:vardefault=%d:argdefault=%d" % (vw, pw, vd, ad), ok, c
         return
-    if placement == "input-field":
+    if placement in ("input-field", "field-in-list"):
+        # an input FIELD has a location default iff the field declares one; the argument's default is irrelevant
+        prefix = "obj" if placement == "input-field" else "lst"
         for vi, vw in enumerate(W):
             for pi, pw in enumerate(W):
                 for vd in (False, True):
-                    for pd in (False, True):
-                        vt, pt = S.parse_type(S.w_type(vw, base)), S.parse_type(S.w_type(pw, base))
-                        ok = is_variable_usage_allowed(vt, vd, pt, pd)
-                        fname = ("obj_d%d" if pd else "obj_a%d") % pi
-                        c = _case([O.F(fname, args={"x": "{f: $v}"})], S.w_type(vw, base), S.w_literal(vw, base) if vd else None)
-                        yield "var-matrix:input-field:scalar:var=%s:pos=%s:vardefault=%d:posdefault=%d" % (vw, pw, vd, pd), ok, c
+                    for fd in (False, True):
+                        for ad in (False, True):
+                            vt, pt = S.parse_type(S.w_type(vw, base)), S.parse_type(S.w_type(pw, base))
+                            ok = is_variable_usage_allowed(vt, vd, pt, fd)
+                            fname = "%s%s_%s%d" % (prefix, "x" if ad else "", "d" if fd else "a", pi)
+                            text = "{f: $v}" if placement == "input-field" else "[{f: $v}]"
+                            c = _case([O.F(fname, args={"x": text})], S.w_type(vw, base), S.w_literal(vw, base) if vd else None)
+                            yield "var-matrix:%s:scalar:var=%s:pos=%s:vardefault=%d:fielddefault=%d:argdefault=%d" % (placement, vw, pw, vd, fd, ad), ok, c
+        return
+    if placement == "list-in-field":
+        # an item of a list that is the value of an input field: no location default, whatever the
+        # field's and the argument's defaults
+        for vi, vw in enumerate(W):
+            for pi, pw in enumerate(W):
+                pt = S.parse_type(S.w_type(pw, base))
+                inner = pt[1] if pt[0] == "nn" else pt
+                if inner[0] != "list":
+                    continue
+                item = inner[1]
+                for vd in (False, True):
+                    for fd in (False, True):
+                        for ad in (False, True):
+                            vt = S.parse_type(S.w_type(vw, base))
+                            ok = is_variable_usage_allowed(vt, vd, item, False)
+                            fname = "obj%s_%s%d" % ("x" if ad else "", "d" if fd else "a", pi)
+                            c = _case([O.F(fname, args={"x": "{f: [$v]}"})], S.w_type(vw, base), S.w_literal(vw, base) if vd else None)
+                            yield "var-matrix:list-in-field:scalar:var=%s:pos=%s:vardefault=%d:fielddefault=%d:argdefault=%d" % (vw, pw, vd, fd, ad), ok, c
         return
     if placement == "directive":
         for vi, vw in enumerate(W):
@@ -97,7 +123,7 @@ def matrix(placement):
     raise ValueError(placement)
 
 
-PLACEMENTS = ["argument", "list-item", "input-field", "directive"]
+PLACEMENTS = ["argument", "list-item", "input-field", "list-in-field", "field-in-list", "directive"]
 
 
 def selftest():
@@ -113,4 +139,4 @@ def selftest():
     assert not is_variable_usage_allowed(P("[Int!]"), False, P("[[Int]]"), False)
     assert is_variable_usage_allowed(P("[[Int!]!]"), False, P("[[Int]]"), False)
     n = sum(1 for p in PLACEMENTS for _ in matrix(p))
-    assert n == 768 + 96 + 256 + 256, n
+    assert n == 768 + 192 + 512 + 384 + 512 + 256, n
